@@ -10,9 +10,7 @@ package props
 
 import (
 	"fmt"
-	"net"
 	"os"
-	"os/exec"
 	"path/filepath"
 	"sort"
 	"strings"
@@ -33,76 +31,20 @@ func TestC20Main(t *testing.T) {
 	if _, err := os.Stat(bin); err != nil {
 		t.Fatalf("VERIF-INCONCLUSIVE %s not built", bin)
 	}
-	shard, _ := shardInfo()
 	caseNo := 0
 	rapid.Check(t, func(rt *rapid.T) {
 		caseNo++
 		initEvery := rapid.Bool().Draw(rt, "initOnEveryStart")
 		ops := rapid.SliceOfN(rapid.SampledFrom([]string{"delete-guest", "rename-guest", "edit-guest", "create", "post", "news-cat", "delete-created"}), 1, 4).Draw(rt, "ops")
-		base, err := os.MkdirTemp(worldBase(), "c20main-")
-		if err != nil {
-			rt.Fatal(err)
-		}
-		defer os.RemoveAll(base)
-		cfg := filepath.Join(base, "config")
-		port := freePortPair() + 12 + shard*2
-		src := 1 // every connection to the main port comes from another loopback address (the door admits one connection per address every two seconds)
-		nextSrc := func() string {
-			src++
-			return fmt.Sprintf("127.%d.%d.%d", 20+shard, caseNo%250, src)
-		}
-		var cmd *exec.Cmd
-		var exited chan error
-		logPath := filepath.Join(base, "server.out")
-		childLog := func() string {
-			b, _ := os.ReadFile(logPath)
-			if len(b) > 4000 {
-				b = b[len(b)-4000:]
-			}
-			return string(b)
-		}
-		start := func(withInit bool) {
-			args := []string{"-config", cfg, "-bind", fmt.Sprint(port), "-interface", "127.0.0.1", "-log-level", "error"}
-			if withInit {
-				args = append([]string{"-init"}, args...)
-			}
-			logf, _ := os.OpenFile(logPath, os.O_CREATE|os.O_APPEND|os.O_WRONLY, 0o644)
-			cmd = exec.Command(bin, args...)
-			cmd.Stdout, cmd.Stderr = logf, logf
-			cmd.Dir = base
-			if err := cmd.Start(); err != nil {
-				rt.Fatalf("VERIF-INCONCLUSIVE cannot start the server: %v", err)
-			}
-			logf.Close()
-			exited = make(chan error, 1)
-			go func(c *exec.Cmd, ch chan error) { ch <- c.Wait() }(cmd, exited)
-			for i := 0; i < 600; i++ {
-				if c, err := net.DialTimeout("tcp", fmt.Sprintf("127.0.0.1:%d", port+1), 200*time.Millisecond); err == nil {
-					c.Close()
-					time.Sleep(100 * time.Millisecond)
-					return
-				}
-				select {
-				case err := <-exited:
-					exited <- err
-					rt.Fatalf("the server (started with -init=%v) ended instead of serving: %v\n%s", withInit, err, childLog())
-				default:
-				}
-				time.Sleep(25 * time.Millisecond)
-			}
-			rt.Fatalf("VERIF-INCONCLUSIVE the server did not start listening: %s", childLog())
-		}
-		kill := func() {
-			if cmd != nil {
-				cmd.Process.Kill()
-				<-exited
-				cmd = nil
-			}
-		}
-		defer kill()
-
+		m := newMainSrv(rt, t, 12, caseNo)
+		defer m.cleanup()
+		cfg := m.cfg
+		nextSrc := m.nextSrc
+		childLog := m.log
+		start := m.start
+		kill := m.kill
 		start(true)
-		admin, err := tcpLogin(nextSrc(), port, "admin", "admin", "adm")
+		admin, err := tcpLogin(nextSrc(), m.port, "admin", "admin", "adm")
 		if err != nil {
 			rt.Fatalf("VERIF-INCONCLUSIVE the administrator of the default configuration cannot log in: %v\n%s", err, childLog())
 		}
@@ -222,7 +164,7 @@ func TestC20Main(t *testing.T) {
 		sort.Strings(logins)
 		for _, l := range logins {
 			_, isThere := accounts[l]
-			c, err := tcpLogin(nextSrc(), port, l, pw[l], "back")
+			c, err := tcpLogin(nextSrc(), m.port, l, pw[l], "back")
 			if c != nil {
 				c.c.Close()
 			}
